@@ -91,9 +91,30 @@ def finite(v):
         return False
 
 
-def brief(case, limit=600):
-    """Short printable form of a case for evidence samples."""
-    s = canon(jsonable(case))
+def brief(case, limit=900):
+    """Readable form of a case for the evidence samples: scalars kept, long arrays abbreviated to shape + leading entries."""
+    case = jsonable(case)
+    s = canon(case)
     if len(s) <= limit:
         return json.loads(s)
-    return {"truncated_case": s[:limit] + "...", "sha": case_hash(case)}
+
+    def shape(v):
+        dims = []
+        while isinstance(v, list):
+            dims.append(len(v))
+            v = v[0] if v else None
+        return dims
+
+    def short(v, depth=0):
+        if isinstance(v, dict):
+            return {k: short(x, depth + 1) for k, x in v.items()}
+        if isinstance(v, list):
+            if len(canon(v)) <= 160:
+                return v
+            head = v[:2] if isinstance(v[0], list) else v[:8]
+            return {"shape": shape(v), "first": [short(h, depth + 1) if not isinstance(h, list) else h[:6] for h in head]}
+        return v
+
+    out = short(case)
+    out["sha"] = case_hash(case)
+    return out
